@@ -507,6 +507,30 @@ func runServer(cfg config) {
 		defer pc.Close()
 		requireProfile(cfg, pc.C)
 	}
+	// other readers of the same stream come and go before the sweep, ending in every state
+	// (set up only, paused, playing): the limit that protects the readers still playing must
+	// not depend on how the others left
+	for _, proto := range []string{"udp", "tcp"} {
+		for _, how := range []string{"setup-only", "paused", "playing"} {
+			tc, err := rig.NewPlayClient(ts, rig.ClientOpts{Name: "transient-" + proto + "-" + how, Proto: proto, HeldEvery: 1000, Mutate: fastTimersClient})
+			if err != nil {
+				run.Fatal("client: %v", err)
+			}
+			if err := tc.C.Start(); err != nil {
+				continue
+			}
+			if d, _, err := tc.C.Describe(tc.URL); err == nil && tc.C.SetupAll(d.BaseURL, d.Medias) == nil {
+				if how != "setup-only" {
+					if _, err := tc.C.Play(nil); err == nil && how == "paused" {
+						_, _ = tc.C.Pause()
+					}
+				}
+				run.Count("transient-readers:"+how, 1)
+			}
+			tc.C.Close()
+		}
+	}
+	time.Sleep(150 * time.Millisecond)
 	m := desc.Medias[0]
 	pts := []uint8{96, 97}
 	sc.sweep(&writer{entry: "server-stream", paths: []string{"udp", "tcp"}, pts: pts,
